@@ -233,6 +233,27 @@ def compress (zdeflate : Bytes → Bytes) (x : Bytes) : CompRes :=
     if out.length < tailStrip then .wild
     else .ok (out.take (out.length - tailStrip)) (out.drop (out.length - tailStrip) == tail)
 
+/-- A whole connection: zlib's two streams are state machines (`deflate`/`inflate` with their states —
+    that is where window bits and context takeover live); `cut` is any fragmentation of a compressed
+    message.  Every message is sent through `websocket_compress` and received through the frame path. -/
+def sessionOk {σd σi : Type} (deflate : σd → Bytes → Bytes × σd) (inflate : σi → Bytes → Option (Bytes × σi))
+    (cut : Bytes → List Bytes) : σd → σi → List Bytes → Prop
+  | _, _, [] => True
+  | sd, si, x :: rest =>
+    match compress (fun y => (deflate sd y).1) x with
+    | .ok c true =>
+      recvFramesNow (fun s => (inflate si s).map (·.1)) RBuf.init (cut c) = .ok x ∧
+      (match inflate si (c ++ tail) with
+        | some (_, si') => sessionOk deflate inflate cut (deflate sd x).2 si' rest
+        | none => False)
+    | _ => False
+
+/-- every message of the session fits the `2 * length` output buffer (excludes the trigger of F37) -/
+def sessionFits {σd : Type} (deflate : σd → Bytes → Bytes × σd) : σd → List Bytes → Prop
+  | _, [] => True
+  | sd, x :: rest =>
+    (deflate sd x).1.length ≤ x.length * deflateOutFactor ∧ sessionFits deflate (deflate sd x).2 rest
+
 /-- remove / re-append the tail -/
 def stripTail (s : Bytes) : Bytes := s.take (s.length - tailStrip)
 def endsWithTail (s : Bytes) : Bool := s.drop (s.length - tailStrip) == tail
